@@ -5,6 +5,7 @@ import (
 	"fmt"
 	"io/fs"
 	"reflect"
+	"sort"
 	"strings"
 	"time"
 
@@ -404,12 +405,15 @@ func enumC17(env *EnumEnv, it *WorkItem) *EnumResult {
 	}
 	shapes := secretShapes(depth - 1)
 	shapes = append([]string{"s"}, shapes...)
+	sort.SliceStable(shapes, func(i, j int) bool { return len(shapes[i]) < len(shapes[j]) }) // shallow types first
+	g := &budgetGuard{env: env, res: res}
 	for _, sh := range shapes {
+		g.phase = fmt.Sprintf("type shapes with %d constructors", len(sh))
 		for _, pl := range []string{"seqreq", "chkreq", "resp", "chkresp"} {
 			for _, sf := range []string{"plan", "block", "checks", "sequence", "action", "plan-default", "render"} {
 				for _, ptr := range []bool{false, true} {
 					idx++
-					if idx%it.NShards != it.Shard {
+					if idx%it.NShards != it.Shard || g.over() {
 						continue
 					}
 					c := secretCase{Shape: sh, Placement: pl, Surface: sf, Pointer: ptr}
@@ -427,6 +431,7 @@ func enumC17(env *EnumEnv, it *WorkItem) *EnumResult {
 		}
 	}
 	// registry
+	g.phase = "registry"
 	var nestings []string
 	var rec func(p string)
 	rec = func(p string) {
@@ -444,7 +449,7 @@ func enumC17(env *EnumEnv, it *WorkItem) *EnumResult {
 				for _, inResp := range []bool{false, true} {
 					for _, top := range []string{"value", "pointer", "zero"} {
 						idx++
-						if idx%it.NShards != it.Shard {
+						if idx%it.NShards != it.Shard || g.over() {
 							continue
 						}
 						c := registryCase{Nesting: n, Name: name, Tag: tag, InResp: inResp, Top: top}
